@@ -514,7 +514,8 @@ def check(run, only=None, repeat=1):
                 'bound methods, lambdas, unconvertible functions (for/else), private groups dropped+collected and '
                 're-exec\'ed; flavours: clean / '
                 'namespace-dependent directive resolution / equal-valued distinct code objects / mixed) x option sets '
-                'differing in one field x routes (to_graph, convert(...)(f), converted_call, _convert_actual) x 1..32 '
+                'differing in one field x routes (to_graph, convert(...)(f), converted_call [also under conversion status '
+                'DISABLED/ENABLED/UNSPECIFIED], _convert_actual) x 1..32 '
                 'threads with random start delays, yields at every dictionary operation and sys.setswitchinterval; '
                 'non-trivial = the request\'s (code value, options) key is also requested by another thread or by a '
                 'function with another environment in the same history')
@@ -527,6 +528,12 @@ def check(run, only=None, repeat=1):
         'namer\'s dependence on the first requester\'s namespace is assumed behaviourally irrelevant (C11)',
         'a conversion that raises is not cached and is retried by every request (the implementation has no negative '
         'caching): such runs are validated against the model but not counted by the converts-once property',
+        'conversion._ALLOWLIST_CACHE (function object -> {options: run as-is}), the second cache converted_call consults, '
+        'is OUTSIDE the Lean model: which decisions may be recorded there is converted_call\'s policy (C13\'s decision '
+        'table), not cache mechanics.  It is covered by the oracle only: every converted_call request (issued under '
+        'conversion status DISABLED / ENABLED / UNSPECIFIED) must behave like the same request against fresh caches, and '
+        'every insertion is audited to record a context-independent decision (artifact, internal_convert_user_code=False, '
+        'allowlist/unsupported rule, or fallback after this very conversion failed)',
         'real schedules are sampled (the model quantifies over all of them; the harness only checks that each observed one '
         'is a member and that the model predicts its outcomes)',
         'the event log is totally ordered by a recorder mutex held around each proxied operation and its log entry; the '
